@@ -42,15 +42,25 @@ ALG_LEN = {'md5': 16, 'sha1': 20, 'sha256': 32}
 MODULE_TUS = ('libyara/modules/hash/hash.c', 'libyara/modules/math/math.c')
 
 
-def canon(f, n, depth=0):
+def rcanon(f, n):
+    """canon() with locals that merely name an expression (cfgutil.stable_defs)
+    replaced by that expression"""
+    return canon(f, n, 0, True)
+
+
+def canon(f, n, depth=0, res=None):
     """cast-free rendering for structural comparison"""
     n = cu.strip_casts(f, n)
     if n is None or depth > 30:
         return '?'
     k = n['k']
     ks = f.kids(n)
-    c = lambda x: canon(f, x, depth + 1)
+    c = lambda x: canon(f, x, depth + 1, res)
     if k == 'ref':
+        if res and depth < 24:
+            e = cu.stable_def_of(f, n)
+            if e is not None:
+                return canon(f, e, depth + 1, res)
         return n['name']
     if k in ('int', 'char'):
         return str(n.get('v', '?'))
